@@ -129,6 +129,29 @@ class State:
         return v
 
 
+_quant_cache: dict = {}
+
+
+def _has_quantifier(t) -> bool:
+    k = t.get_id()
+    r = _quant_cache.get(k)
+    if r is None:
+        r = False
+        stack, seen = [t], set()
+        while stack:
+            x = stack.pop()
+            i = x.get_id()
+            if i in seen:
+                continue
+            seen.add(i)
+            if z3.is_quantifier(x):
+                r = True
+                break
+            stack.extend(x.children())
+        _quant_cache[k] = r
+    return r
+
+
 def hard_check(solver, seconds):
     """solver.check() with a watchdog: z3's own timeout is not always honoured by the string solver."""
     import threading
@@ -182,7 +205,7 @@ BUILTIN_EXC = {
 
 
 class Exec:
-    def __init__(self, db, feas_timeout_ms=2000):
+    def __init__(self, db, feas_timeout_ms=1000):
         self.db = db  # ContractDB
         self.obligations: list[Obligation] = []
         self.feas_timeout_ms = feas_timeout_ms
@@ -194,15 +217,26 @@ class Exec:
         self.uf_cache: dict = {}
 
     # ------------------------------------------------------------------ solver helpers
-    def feasible(self, pc) -> bool:
+    def feasible(self, pc, deep=False) -> bool:
+        """Cheap path pruning.  Quantified assumptions are dropped (z3 is erratic on satisfiable
+        quantified problems); ``deep`` adds them back with a larger budget.  Keeping an infeasible
+        path is always sound: its obligations are discharged under the full path condition."""
         self.n_feas += 1
         s = z3.Solver()
-        s.set("timeout", self.feas_timeout_ms)
-        # axioms (definitional facts) are left out: keeping a path that only they exclude is sound,
-        # its obligations are discharged with the axioms present
-        s.add(*pc)
-        r = hard_check(s, self.feas_timeout_ms / 1000.0)
+        budget = self.feas_timeout_ms * (5 if deep else 1)
+        s.set("timeout", budget)
+        if deep:
+            s.add(*bm.AXIOMS)
+            s.add(*pc)
+        else:
+            s.add(*[p for p in pc if not _has_quantifier(p)])
+        r = hard_check(s, budget / 1000.0)
         return r != z3.unsat
+
+    def give_up(self, st, msg):
+        """Raise Unsupported unless the current path is infeasible under the full path condition."""
+        if self.feasible(st.pc, deep=True):
+            raise Unsupported(msg)
 
     def branch(self, st: State, cond):
         """Yield (state, bool) for every feasible truth value of ``cond``."""
@@ -221,7 +255,8 @@ class Exec:
             can_t = can_f = True
         else:
             can_t = self.feasible(st.pc + [t])
-            can_f = self.feasible(st.pc + [z3.Not(t)])
+            # the current path is feasible, so if one side is impossible the other one is not
+            can_f = True if not can_t else self.feasible(st.pc + [z3.Not(t)])
         if can_t and can_f:
             st2 = st.fork()
             st.pc.append(t)
@@ -286,6 +321,8 @@ class Exec:
             return len(v.items) > 0
         if isinstance(v, SDict):
             return SV("bool", v.n > 0)
+        if type(v).__name__ == "SSet":
+            raise Unsupported("truthiness of symbolic set")
         if isinstance(v, bm.SSeq):
             return SV("bool", v.n > 0)
         if isinstance(v, Opaque):
@@ -294,6 +331,8 @@ class Exec:
         if isinstance(v, (Obj, FuncRef, ClassRef, BuiltinRef, Closure, TypeRef, ModuleRef, ExcVal, EnumMember)):
             return True
         if isinstance(v, (bm.EagerGen,)):
+            return True
+        if type(v).__name__ == "RegexVal":
             return True
         if isinstance(v, bm.Kwargs):
             if v.open:
@@ -335,6 +374,9 @@ class Exec:
         mod = load_module(modname)
         if mod is None:
             return bm.external_attr(self, modname, name)
+        ov = self.db.const_overrides.get((modname, name))
+        if ov is not None:
+            return ov
         if name in mod.defs:
             node = mod.defs[name]
             if isinstance(node, ast.ClassDef):
@@ -498,7 +540,7 @@ class Exec:
         disj = []
         for st1, v in self.ev(node, st0):
             if isinstance(v, Exc):
-                if not self.feasible(st1.pc):
+                if not self.feasible(st1.pc) or not self.feasible(st1.pc, deep=True):
                     continue
                 raise Unsupported(f"contract sub-expression raises {v.exc.cls}: {ast.unparse(node)[:80]}")
             t = bm._z(self.truthy(st1, v))
